@@ -239,7 +239,10 @@ def check_rule_cases(p, m, fn, rule):
         if kind == "singular":
             out.append((label, True, f"R has a zero on its diagonal: the factorisation is not differentiable there, the rule returns the finite convention {T.show(tan, 3)} (tangent {st})", kind))
         else:
-            out.append((label, leq(st, sp), f"primal output is {sp}, rule's primal {sr}, rule's tangent {st}: {T.show(tan, 4)}", kind))
+            ok = leq(st, sp)
+            if not ok and sp == "upper" and provably_upper(tan):
+                ok, st = True, "upper (y R^-1 = X - strictly_lower(X) + upper words)"
+            out.append((label, ok, f"primal output is {sp}, rule's primal {sr}, rule's tangent {st}: {T.show(tan, 4)}", kind))
     return out
 
 
@@ -402,6 +405,7 @@ def words(t):
         raise _NotPoly("solve with a matrix other than R")
     if t.op.endswith(".tril") or t.op.endswith(".triu"):
         # the triangular part of a matrix is an opaque symbol (it cancels in the Gram identity through its skew-symmetric combination)
+        _TRI[t.uid] = t
         return {((f"tri#{t.uid}", False),): 1}
     if t.op == "matmul":
         return _pmul(words(t.args[0]), words(t.args[1]))
@@ -418,8 +422,64 @@ def words(t):
     raise _NotPoly(t.op)
 
 
+_TRI: dict = {}
+
+
+def _mask_k(t):
+    k = t.args[1] if len(t.args) >= 2 else t.kwargs.get("k", 0)
+    return k if isinstance(k, int) and not isinstance(k, bool) else None
+
+
+def provably_upper(y) -> bool:
+    """Is the matrix expression y upper triangular for every input?  Either by the structure lattice, or by the factorisation argument
+    y = Y R  with  Y = y R^-1 = X - tril(X, -1) + (upper-triangular words):  X minus its strictly lower part is upper, and upper times R is upper."""
+    if struct(y) == "upper":
+        return True
+    try:
+        p = words(y)
+    except _NotPoly:
+        return False
+    yr = _pmul(p, {(("Rinv", False),): 1})
+    rest = dict(yr)
+    # pair every strictly-lower symbol L = tril(X, k<0 or k=-1) occurring as -c L with c X
+    for w, c in list(yr.items()):
+        if len(w) == 1 and w[0][0].startswith("tri#") and not w[0][1]:
+            tt = _TRI.get(int(w[0][0][4:]))
+            if tt is None or not tt.op.endswith(".tril") or _mask_k(tt) != -1:
+                continue
+            try:
+                xw = words(tt.args[0])
+            except _NotPoly:
+                continue
+            # remove  (-c) * X + c * L  ==  -c (X - L)  (upper)
+            trial = _padd(rest, xw, c)
+            trial = _padd(trial, {w: 1}, -c)
+            if len(trial) < len(rest):
+                rest = trial
+    for w, c in rest.items():
+        # what is left must be upper word by word: the transpose of a strictly lower part
+        ok = len(w) == 1 and w[0][0].startswith("tri#") and w[0][1] and (lambda tt: tt is not None and tt.op.endswith(".tril") and (_mask_k(tt) or 0) <= 0)(_TRI.get(int(w[0][0][4:])))
+        if not ok:
+            return False
+    return True
+
+
 def gram_consistent(primal_out, tangent):
     """True / False / None (not decidable by rewriting) with a one-line reason."""
+    if isinstance(tangent, T.Term) and tangent.op.endswith(".triu") and tangent.args and (_mask_k(tangent) or 0) == 0:
+        inner = tangent.args[0]
+        if provably_upper(inner):
+            ok, why = gram_consistent(primal_out, inner)
+            return ok, f"triu of an expression that is upper triangular for every input (y R^-1 = X - strictly_lower(X) + upper words) only removes rounding residue; {why}"
+        inner_ok, _ = gram_consistent(primal_out, inner)
+        if inner_ok is True and struct(inner) == "general":
+            try:
+                single = len(words(inner)) == 1
+            except _NotPoly:
+                single = False
+            if single:
+                return False, f"triu of the Gram-consistent general matrix {T.show(inner, 3)} drops a part whose contribution to R^T R_dot + R_dot^T R is non-zero"
+        return None, f"triu of {T.show(inner, 3)}: neither proven upper triangular (harmless mask) nor a single general word (harmful mask)"
     R = {(("R", False),): 1}
     want = _padd({(("M", True), ("D", False)): 1}, {(("D", True), ("M", False)): 1})
     try:
